@@ -1,73 +1,145 @@
+mod decode;
+mod gen;
+mod gen2;
 mod ix;
+mod ixtable;
+mod model;
+mod mon;
 mod programs;
 mod rng;
 mod rt;
+mod run;
+mod sim;
 mod world;
+mod wpix;
 
-use rt::*;
-use world::*;
+use gen::Profile;
+use run::CheckSpec;
+use sim::Monitor;
 
-fn smoke() {
-    let mut rng = rng::Rng::new(1);
-    with_ctx(|c| {
-        c.clock = ClockState::default();
-        c.rent = RentParams::default();
-    });
-    let rent = RentParams::default();
-    let mut l = base_ledger(&rent);
-    let payer = ADMIN0;
-    fund(&mut l, &payer, 1_000_000_000_000);
-    let config = new_key(&mut rng);
-    let fee_auth = new_key(&mut rng);
-    fund(&mut l, &fee_auth, 1_000_000_000);
-    let o = must(&mut l, vec![ix::initialize_config(&config, &payer, &fee_auth, &fee_auth, &fee_auth, 300)], "init config");
-    println!("config ok, cpis={}", o.ix_outcomes[0].cpis.len());
-    must(&mut l, vec![ix::initialize_fee_tier(&config, &payer, &fee_auth, 64, 3000)], "fee tier");
-    let mut m1 = new_key(&mut rng);
-    let mut m2 = new_key(&mut rng);
-    if m1 > m2 { std::mem::swap(&mut m1, &mut m2); }
-    create_mint(&mut l, &payer, &m1, &payer, 6, None);
-    create_mint(&mut l, &payer, &m2, &payer, 6, None);
-    let whirlpool = ix::pda_whirlpool(&config, &m1, &m2, 64);
-    let pk = ix::PoolKeys { config, whirlpool, mint_a: m1, mint_b: m2, vault_a: new_key(&mut rng), vault_b: new_key(&mut rng), prog_a: ix::tok(), prog_b: ix::tok(), tick_spacing: 64, fee_tier_index: 64, oracle: ix::pda_oracle(&whirlpool) };
-    must(&mut l, vec![ix::initialize_pool(&pk, &payer, 1u128 << 64)], "init pool");
-    println!("pool ok len={}", l.data(&whirlpool).unwrap().len());
-    must(&mut l, vec![ix::initialize_tick_array(&whirlpool, &payer, 0)], "ta 0");
-    must(&mut l, vec![ix::initialize_dynamic_tick_array(&whirlpool, &payer, -5632, false)], "ta -5632");
-    must(&mut l, vec![ix::initialize_tick_array(&whirlpool, &payer, 5632)], "ta 5632");
-    let lp = new_key(&mut rng);
-    fund(&mut l, &lp, 100_000_000_000);
-    let pmint = new_key(&mut rng);
-    let (oix, pkeys) = ix::open_position(&whirlpool, &lp, &lp, &pmint, -128, 128);
-    must(&mut l, vec![oix], "open position");
-    let lp_a = new_key(&mut rng);
-    let lp_b = new_key(&mut rng);
-    create_token_account(&mut l, &payer, &lp_a, &m1, &lp);
-    create_token_account(&mut l, &payer, &lp_b, &m2, &lp);
-    mint_to(&mut l, &ix::tok(), &m1, &lp_a, &payer, 1_000_000_000_000);
-    mint_to(&mut l, &ix::tok(), &m2, &lp_b, &payer, 1_000_000_000_000);
-    let la = ix::LiqAccounts { pool: pk.clone(), authority: lp, position: pkeys.position, position_token_account: pkeys.token_account, owner_a: lp_a, owner_b: lp_b, ta_lower: ix::pda_tick_array(&whirlpool, -5632), ta_upper: ix::pda_tick_array(&whirlpool, 0) };
-    let o = must(&mut l, vec![ix::increase_liquidity(&la, 1_000_000_000, u64::MAX, u64::MAX)], "increase");
-    println!("increase ok: cpis={} events={} a={} b={}", o.ix_outcomes[0].cpis.len(), o.ix_outcomes[0].events.len(), token_amount(&l, &pk.vault_a), token_amount(&l, &pk.vault_b));
-    let sa = ix::SwapAccounts { pool: pk.clone(), authority: lp, owner_a: lp_a, owner_b: lp_b, tick_arrays: [ix::pda_tick_array(&whirlpool, 0), ix::pda_tick_array(&whirlpool, -5632), ix::pda_tick_array(&whirlpool, -11264)] };
-    let t0 = std::time::Instant::now();
-    let o = must(&mut l, vec![ix::swap(&sa, &ix::SwapArgs { amount: 10_000, other_amount_threshold: 0, sqrt_price_limit: 0, amount_specified_is_input: true, a_to_b: true })], "swap");
-    println!("swap ok in {:?}: events={} a={} b={} mismatch={:?}", t0.elapsed(), o.ix_outcomes[0].events.len(), token_amount(&l, &pk.vault_a), token_amount(&l, &pk.vault_b), o.ix_outcomes[0].routing_mismatch);
-    let o = must(&mut l, vec![ix::swap_v2(&sa, &ix::SwapArgs { amount: 10_000, other_amount_threshold: u64::MAX, sqrt_price_limit: 0, amount_specified_is_input: false, a_to_b: false }, &[])], "swap v2");
-    println!("swapv2 ok: events={} a={} b={}", o.ix_outcomes[0].events.len(), token_amount(&l, &pk.vault_a), token_amount(&l, &pk.vault_b));
-    let o = must(&mut l, vec![ix::decrease_liquidity_v2(&la, 1_000_000_000, 0, 0)], "decrease");
-    println!("decrease ok: events={} a={} b={}", o.ix_outcomes[0].events.len(), token_amount(&l, &pk.vault_a), token_amount(&l, &pk.vault_b));
-    must(&mut l, vec![ix::collect_fees(&la)], "collect");
-    println!("after collect a={} b={}", token_amount(&l, &pk.vault_a), token_amount(&l, &pk.vault_b));
-    // failing case: wrong signer
-    let mut bad = ix::close_position(&payer, &payer, &pkeys);
-    let o = run(&mut l, vec![bad.clone()]);
-    println!("close by stranger: ok={} code={:#x} {:?}", o.ok, o.code(), o.ix_outcomes[0].detail);
-    bad = ix::close_position(&lp, &lp, &pkeys);
-    let o = run(&mut l, vec![bad]);
-    println!("close by owner: ok={} code={:#x} {:?}", o.ok, o.code(), o.ix_outcomes[0].detail);
+const COMMON_ASSUMPTIONS: &[&str] = &[
+    "program code runs natively (not in the SBF VM): compute-unit, heap and transaction-size limits are not simulated",
+    "the runtime stub (/verif/sim/src/rt.rs) stands for the Solana runtime: loader buffer layout, CPI privilege rules, rent and lamport post-conditions, transaction atomicity",
+    "signatures are a flag on the account meta, which is all a program can observe",
+    "tick <-> sqrt-price conversion is taken from the program (trusted base; C09 is not claimed)",
+    "host seams are patched copies of pinocchio, solana-invoke, solana-cpi, solana-msg and anchor-lang under /verif/vendor (only the not(target_os=solana) branches differ)",
+];
+
+fn mk_c05() -> Vec<Box<dyn Monitor>> {
+    vec![Box::new(mon::c05::C05::new())]
+}
+
+fn specs() -> Vec<CheckSpec> {
+    vec![CheckSpec {
+        id: "C05",
+        profile: Profile::Core,
+        mk: mk_c05,
+        level: "exploration",
+        rule: "seeded multi-actor histories (LPs, traders, keeper, fee authority, collector) with delay/reorder/drop/duplicate/burst/crash/CPI-failure faults; after every landed transaction the pool, position and tick-array bytes are decoded independently and compared; a case is one (instruction kind, #positions, #in-range, #bounded ticks, zero-liquidity, shifted-state, tick spacing, #dynamic arrays) tuple with at least one position in the pool",
+        quick_runs: 400,
+        thorough_secs: 600,
+        assumptions: COMMON_ASSUMPTIONS,
+    }]
+}
+
+fn usage() -> ! {
+    eprintln!("usage: wpsim check <ID> [--tier quick|thorough] [--seed N] [--runs N] [--secs N]\n       wpsim replay <file>\n       wpsim one <ID> <seed> [--thorough]\n       wpsim selfcheck determinism [--seeds N]");
+    std::process::exit(2)
+}
+
+fn arg_val(args: &[String], name: &str) -> Option<String> {
+    args.iter().position(|a| a == name).and_then(|i| args.get(i + 1)).cloned()
 }
 
 fn main() {
-    smoke();
+    let args: Vec<String> = std::env::args().collect();
+    if args.len() < 2 {
+        usage();
+    }
+    rt::install_stubs();
+    let specs = specs();
+    match args[1].as_str() {
+        "check" => {
+            let id = args.get(2).cloned().unwrap_or_else(|| usage());
+            let spec = specs.iter().find(|s| s.id == id).unwrap_or_else(|| {
+                eprintln!("unknown check {}", id);
+                std::process::exit(2)
+            });
+            let tier = arg_val(&args, "--tier")
+                .or_else(|| std::env::var("VERIF_TIER").ok())
+                .unwrap_or_else(|| "quick".into());
+            let seed: u64 = arg_val(&args, "--seed")
+                .or_else(|| std::env::var("VERIF_SEED").ok())
+                .and_then(|s| s.parse().ok())
+                .unwrap_or(20260924);
+            let runs = arg_val(&args, "--runs").and_then(|s| s.parse().ok());
+            let secs = arg_val(&args, "--secs").and_then(|s| s.parse().ok());
+            let code = run::run_batch(spec, tier == "thorough", seed, runs, secs);
+            std::process::exit(code);
+        }
+        "one" => {
+            let id = args.get(2).cloned().unwrap_or_else(|| usage());
+            let seed: u64 = args.get(3).and_then(|s| s.parse().ok()).unwrap_or_else(|| usage());
+            let spec = specs.iter().find(|s| s.id == id).unwrap_or_else(|| usage());
+            let thorough = args.iter().any(|a| a == "--thorough");
+            let t0 = std::time::Instant::now();
+            let r = run::run_one(seed, spec.profile, thorough, spec.mk, true);
+            println!(
+                "seed {} events {} ok {} fail {} evals {} distinct {} hash {:016x} in {:?}",
+                seed,
+                r.history.len(),
+                r.landed_ok,
+                r.landed_fail,
+                r.cov.evaluations,
+                r.cov.distinct.len(),
+                r.log_hash,
+                t0.elapsed()
+            );
+            if args.iter().any(|a| a == "--dump") {
+                for (i, e) in r.history.iter().enumerate() {
+                    if let sim::HEvent::Tx { tag, .. } = e {
+                        println!("{:4} {}", i, tag);
+                    }
+                }
+            }
+            for v in &r.violations {
+                println!("violation {} {} @{}: {}", v.property, v.class, v.event_idx, v.detail);
+            }
+            println!("faults {:?}", r.faults);
+            println!("probes {:?}", r.cov.probes);
+            println!("notes {:?}", r.cov.notes);
+        }
+        "replay" => {
+            let path = args.get(2).cloned().unwrap_or_else(|| usage());
+            let Some(doc) = run::read_replay(&path) else {
+                eprintln!("cannot read replay file {}", path);
+                std::process::exit(2)
+            };
+            let spec = specs.iter().find(|s| s.id == doc.property).unwrap_or_else(|| {
+                eprintln!("unknown check {}", doc.property);
+                std::process::exit(2)
+            });
+            let v = run::replay_events(doc.seed, doc.profile, doc.thorough, &doc.events, spec.mk);
+            if let Some(x) = v.first() {
+                println!("VIOLATION property={} replay={}", doc.property, path);
+                println!("  class={} event={} : {}", x.class, x.event_idx, x.detail);
+                std::process::exit(1);
+            } else {
+                println!("replay of {}: no violation", path);
+                std::process::exit(0);
+            }
+        }
+        "selfcheck" => {
+            let n: u64 = arg_val(&args, "--seeds").and_then(|s| s.parse().ok()).unwrap_or(64);
+            let base: u64 = arg_val(&args, "--seed").and_then(|s| s.parse().ok()).unwrap_or(777);
+            // print the event-log hash of every (check, seed); the wrapper script diffs two processes
+            for spec in &specs {
+                for i in 0..n {
+                    let r = run::run_one(base + i, spec.profile, i % 2 == 1, spec.mk, true);
+                    println!("{} {} {:016x} {}", spec.id, base + i, r.log_hash, r.history.len());
+                }
+            }
+        }
+        _ => usage(),
+    }
 }
